@@ -1,0 +1,11 @@
+//go:build verif
+
+package gormx
+
+import "gorm.io/gorm"
+
+// verifCombineRun is never called. It is a proof harness for govc (see /verif/DESIGN.md): its contract in
+// zz_contracts_verif.go states what running a combined step does (sequential composition with early exit).
+func verifCombineRun(txn *gorm.DB, fns ...GormProcFn) error {
+	return Combine(fns...)(txn)
+}
